@@ -125,9 +125,10 @@ def task_graph(task):
     for a in range(V):
         for b in range(V):
             if adj[a][b] > 0:
-                if adj[a][b] == 2 and task.get("weak_first"):
-                    g.add_edge(names[b], names[a], 1)
                 g.add_edge(names[b], names[a], adj[a][b])
+                if adj[a][b] == 2 and task.get("weak_after"):
+                    # a second, linear occurrence of the same dependency must not weaken the label
+                    g.add_edge(names[b], names[a], 1)
     res = {"stored": [list(r) for r in g.adj]}
     try:
         d = g.get_defective_nodes()
